@@ -80,7 +80,9 @@ class Scenario:
     preemptions: int = 2
     kills: int = 0
     faults: int = 0
-    # environment events: none by default
+    # shape of the injected exception ("message": one string argument; "bare": no arguments, like a bare `assert` or
+    # `raise NotImplementedError` in code generation) - the failure path must not depend on it
+    exc_shape: str = "message"
 
 
 class VProc:
@@ -122,6 +124,8 @@ class VProc:
             self.observe(desc, "INJECTED-FAILURE")
             if desc[0] == "open" and desc[1].endswith(".c.cached"):
                 raise OSError(28, "No space left on device (injected)")
+            if self.ex.sc.exc_shape == "bare":
+                raise InjectedFailure()
             raise InjectedFailure(f"injected failure at {desc}")
 
     def observe(self, desc, obs):
@@ -803,14 +807,14 @@ class Explorer:
 # parallel driver: split the choice tree into sub-trees, explore each exhaustively in a worker
 # ---------------------------------------------------------------------------------------------------
 def scenario_to_json(sc: Scenario):
-    return dict(name=sc.name, preemptions=sc.preemptions, kills=sc.kills, faults=sc.faults,
+    return dict(name=sc.name, preemptions=sc.preemptions, kills=sc.kills, faults=sc.faults, exc_shape=sc.exc_shape,
                 procs=[dict(name=p.name, module=p.module, timeout=p.timeout, after=list(p.after),
                             killable=p.killable, faultable=p.faultable) for p in sc.procs])
 
 
 def scenario_from_json(d):
     return Scenario(d["name"], [ProcSpec(p["name"], p["module"], p["timeout"], tuple(p["after"]), p["killable"], p["faultable"])
-                                for p in d["procs"]], d["preemptions"], d["kills"], d["faults"])
+                                for p in d["procs"]], d["preemptions"], d["kills"], d["faults"], d.get("exc_shape", "message"))
 
 
 def _violation_record(sc, chosen, ex):
